@@ -13,8 +13,10 @@
 #include <limits.h>
 #include <math.h>
 #include <setjmp.h>
+#include <signal.h>
+#include <unistd.h>
 
-static jmp_buf jb;
+static sigjmp_buf jb;
 static char ubmsg[256];
 struct srcloc { const char *file; uint32_t line, col; };
 static void ub_out (const char *kind, void *data, long a, long b)
@@ -23,7 +25,7 @@ static void ub_out (const char *kind, void *data, long a, long b)
   const char *f = l->file ? l->file : "?";
   const char *s = strrchr (f, '/');
   snprintf (ubmsg, sizeof ubmsg, "UB %s %s:%u %ld %ld", kind, s ? s + 1 : f, l->line, a, b);
-  longjmp (jb, 1);
+  siglongjmp (jb, 1);
 }
 void __ubsan_handle_add_overflow_abort (void *d, long a, long b) { ub_out ("add", d, a, b); }
 void __ubsan_handle_sub_overflow_abort (void *d, long a, long b) { ub_out ("sub", d, a, b); }
@@ -31,6 +33,16 @@ void __ubsan_handle_mul_overflow_abort (void *d, long a, long b) { ub_out ("mul"
 void __ubsan_handle_negate_overflow_abort (void *d, long a) { ub_out ("neg", d, a, 0); }
 void __ubsan_handle_divrem_overflow_abort (void *d, long a, long b) { ub_out ("divrem", d, a, b); }
 void __ubsan_handle_shift_out_of_bounds_abort (void *d, long a, long b) { ub_out ("shift", d, a, b); }
+
+/* x^LONG_MIN: the code before fixes/C12_pow_si_long_min.patch negates LONG_MIN (UBSan stops the call there, san
+ * build) and then loops for ever (plain build: not run).  A watchdog alarm turns any other non-terminating call
+ * into the output line HANG. */
+static void on_alarm (int sig) { (void) sig; snprintf (ubmsg, sizeof ubmsg, "HANG"); siglongjmp (jb, 1); }
+#if defined(__SANITIZE_ADDRESS__) || defined(VF_RUN_LONG_MIN)
+#define POW_MIN_GUARD(i) do { } while (0)
+#else
+#define POW_MIN_GUARD(i) do { if ((i) == LONG_MIN) { printf ("SKIP\n"); return; } } while (0)
+#endif
 
 static double dbl (const char *s) { uint64_t u = strtoull (s, NULL, 16); double d; memcpy (&d, &u, 8); return d; }
 static const char *hx (double d)
@@ -79,9 +91,9 @@ static void run (int n, char **t)
   else if (IS ("mul_eq_2exp") && n == 3) { rd (r, a); rdpe_mul_eq_2exp (r, strtoul (a[2], NULL, 10)); outr (r); }
   else if (IS ("div_eq_2exp") && n == 3) { rd (r, a); rdpe_div_eq_2exp (r, strtoul (a[2], NULL, 10)); outr (r); }
   else if (IS ("pow_si") && n == 3)
-    { long i = lng (a[2]); rd (x, a); if (i == LONG_MIN) { printf ("SKIP\n"); return; } rdpe_pow_si (r, x, i); outr (r); }
+    { long i = lng (a[2]); rd (x, a); POW_MIN_GUARD (i); rdpe_pow_si (r, x, i); outr (r); }
   else if (IS ("pow_eq_si") && n == 3)
-    { long i = lng (a[2]); rd (r, a); if (i == LONG_MIN) { printf ("SKIP\n"); return; } rdpe_pow_eq_si (r, i); outr (r); }
+    { long i = lng (a[2]); rd (r, a); POW_MIN_GUARD (i); rdpe_pow_eq_si (r, i); outr (r); }
 #define REL(name, fn) else if (IS (name) && n == 4) { rd (x, a); rd (y, a + 2); printf ("%d\n", fn (x, y)); }
   REL ("cmp", rdpe_cmp) REL ("eq", rdpe_eq) REL ("ne", rdpe_ne)
   REL ("lt", rdpe_lt) REL ("le", rdpe_le) REL ("gt", rdpe_gt) REL ("ge", rdpe_ge)
@@ -105,7 +117,7 @@ static void run (int n, char **t)
   else if (IS ("cmul_eq_2exp") && n == 5) { cd (rc, a); cdpe_mul_eq_2exp (rc, strtoul (a[4], NULL, 10)); outc (rc); }
   else if (IS ("cdiv_eq_2exp") && n == 5) { cd (rc, a); cdpe_div_eq_2exp (rc, strtoul (a[4], NULL, 10)); outc (rc); }
   else if (IS ("cpow_si") && n == 5)
-    { long i = lng (a[4]); cd (c, a); if (i == LONG_MIN) { printf ("SKIP\n"); return; } cdpe_pow_si (rc, c, i); outc (rc); }
+    { long i = lng (a[4]); cd (c, a); POW_MIN_GUARD (i); cdpe_pow_si (rc, c, i); outc (rc); }
   else if (IS ("cset_d") && n == 2) { cdpe_set_d (rc, dbl (a[0]), dbl (a[1])); outc (rc); }
   else if (IS ("cget_d") && n == 4)
     { double u, v; cd (c, a); cdpe_get_d (&u, &v, c); printf ("%s %s\n", hx (u), hx (v)); }
@@ -146,7 +158,7 @@ static void run (int n, char **t)
   else if (IS ("cmul_x") && n == 6) { cplx_t z; cd (c, a); cplx_set_d (z, dbl (a[4]), dbl (a[5])); cdpe_mul_x (rc, c, z); outc (rc); }
   else if (IS ("cmul_eq_x") && n == 6) { cplx_t z; cd (rc, a); cplx_set_d (z, dbl (a[4]), dbl (a[5])); cdpe_mul_eq_x (rc, z); outc (rc); }
   else if (IS ("cpow_eq_si") && n == 5)
-    { long i = lng (a[4]); cd (rc, a); if (i == LONG_MIN) { printf ("SKIP\n"); return; } cdpe_pow_eq_si (rc, i); outc (rc); }
+    { long i = lng (a[4]); cd (rc, a); POW_MIN_GUARD (i); cdpe_pow_eq_si (rc, i); outc (rc); }
   else if (IS ("ceq_zero") && n == 4) { cd (c, a); printf ("%d\n", cdpe_eq_zero (c)); }
   else if (IS ("ceq") && n == 8) { cd (c, a); cd (c2, a + 4); printf ("%d\n", cdpe_eq (c, c2)); }
   else if (IS ("cne") && n == 8) { cd (c, a); cd (c2, a + 4); printf ("%d\n", cdpe_ne (c, c2)); }
@@ -156,6 +168,7 @@ static void run (int n, char **t)
 int main (void)
 {
   static char line[1024];
+  signal (SIGALRM, on_alarm);
   char *tok[16];
   while (fgets (line, sizeof line, stdin))
     {
@@ -163,8 +176,8 @@ int main (void)
       char *p = strtok (line, " \t\r\n");
       while (p && n < 16) { tok[n++] = p; p = strtok (NULL, " \t\r\n"); }
       if (n == 0) continue;
-      if (setjmp (jb) == 0) run (n, tok);
-      else printf ("%s\n", ubmsg);
+      if (sigsetjmp (jb, 1) == 0) { alarm (20); run (n, tok); alarm (0); }
+      else { alarm (0); printf ("%s\n", ubmsg); }
     }
   return 0;
 }
